@@ -46,6 +46,18 @@ def run_family(family):
             res["model"] = {}
         if not cases:
             raise vlib.Inconclusive("no cases generated")
+        if only_cases is None and family == "C12":
+            # free runs over real sockets: envelopes of several KiB coalesced with small ones behind them
+            # (what the decoder has read ahead belongs to the stream)
+            extra = []
+            for lens in ([160, 1, 1], [1, 160, 1, 1], [200, 200, 1], [1, 1, 300, 2, 1]):
+                for mode in ("loop-accept", "loop-dial"):
+                    extra.append({"mode": mode, "cfg": {"lens": lens, "U": 32, "L": 0, "faultfree": "y"},
+                                  "plan": {"w": [], "r": [], "cut": 0}, "obs": []})
+            for c in extra:
+                c["n"] = len(cases) + 1
+                cases.append(c)
+            res["model"]["free_run_cases"] = len(extra)
         if only_cases is None and family == "C16":
             # free runs over real sockets through the constructors applications use (listener
             # Accept, DialTcp): one per distinct configuration plus long streams of small envelopes
